@@ -38,6 +38,7 @@ TRUSTED = ['the verif hook in BiproportionalEvaluator.evaluate (records copies o
            'harness-side exact solver for multipliers (untrusted: its output is only a certificate for cert_ok)']
 ASSUMPTIONS = ['a wall-clock limit stands in for termination', 'votes are non-negative integers, at least one of them positive']
 EXTRA_PROOF_FILES = []
+GEN_TIES = {'Divisor': 'Props/GenTie_Divisor.v'}     # d_hondt / sainte_lague of the checker = component/divisor.py (translator tie)
 DIV = {1: 'd_hondt', 2: 'sainte_lague'}
 # x (implementation units: signposts s - q) * SCALE = quotient in divisor units (d_hondt k = k+1, sainte_lague k = 2k+1)
 SCALE = {1: 1, 2: 2}
@@ -192,6 +193,8 @@ def judge(ctx, stream, cases, limit):
                 if trace[-1][0] != res:
                     ctx.broken('hook', 'last trace state is not the returned result')
             else:
+                if not ctx.dist['hook absent']:
+                    ctx.notes.append('verif hook absent (fixes/C07-hook.diff not applied): multipliers are solved from the returned matrix')
                 ctx.dist['hook absent'] += 1
                 sol = solve_multipliers(c, enc_mat(res))
                 st = (enc_mat(res),) + (sol if sol else ([], []))
